@@ -1,8 +1,9 @@
 #!/bin/bash
-# usage: seedverify.sh <Cxx> <m1|m2>  -- confirms a seeded mutant in a scratch worktree of /repo HEAD
+# usage: seedverify.sh <Cxx> <mN> [srcdir]  -- confirms a seeded change in a scratch worktree of /repo HEAD
+# default srcdir: /tmp/r3/<Cxx>/out/<mN>; result in /tmp/seedv/<Cxx>-<mN>.result
 set -u
 ID=$1; M=$2
-SRC=/tmp/seed/$ID.out/$M
+SRC=${3:-/tmp/r3/$ID/out/$M}
 WT=/tmp/seedv/$ID-$M
 OUT=/tmp/seedv/$ID-$M.result
 mkdir -p /tmp/seedv
@@ -13,9 +14,10 @@ res() { echo "$1" >> $OUT; }
 : > $OUT
 PKGDIR=$(python3 -c "import json;print(json.load(open('$SRC/meta.json'))['demo_pkg_dir'])")
 RUN=$(python3 -c "import json;print(json.load(open('$SRC/meta.json'))['demo_run'])")
-TESTNAME=$(echo "$RUN" | grep -o '\-run [^ ]*' | awk '{print $2}')
+TESTNAME=$(echo "$RUN" | grep -o '\-run [^ ]*' | awk '{print $2}' | tr -d "'\"")
 if git apply --check $SRC/patch.diff 2>/dev/null; then res "applies=yes"; else res "applies=no"; cd /; git -C /repo worktree remove --force $WT; exit 0; fi
 git apply $SRC/patch.diff
+if git diff --name-only | grep -q '_test.go\|contracts_verif.go\|\.tpl$'; then res "touches_forbidden=yes"; fi
 if go build ./... >/dev/null 2>&1; then res "builds=yes"; else res "builds=no"; fi
 if go test -vet=off -count=1 ./... >/tmp/seedv/$ID-$M.tests.log 2>&1; then res "existing_tests=pass"; else res "existing_tests=FAIL"; fi
 cp $SRC/zz_demo_test.go $PKGDIR/zz_demo_test.go
